@@ -343,8 +343,15 @@ impl<T: NumberLike> Iterator for &mut Decompressor<T> {
         match read_chunk_meta::<T>(reader, state.flags.as_ref().unwrap()) {
           Ok(Some(meta)) => {
             match ChunkBodyDecompressor::new(&meta) {
-              Ok(cbd) => {
-                state.chunk_body_decompressor = Some(cbd);
+              Ok(mut cbd) => {
+                if meta.n == 0 {
+                  // A chunk without numbers (only written by old versions)
+                  // has no batches to yield, so we finish its empty body
+                  // right away instead of waiting for a nonempty batch.
+                  cbd.decompress_next_batch(reader, config.numbers_limit_per_item, false)?;
+                } else {
+                  state.chunk_body_decompressor = Some(cbd);
+                }
                 Ok(Some(DecompressedItem::ChunkMetadata(meta)))
               }
               Err(e) => Err(e)
